@@ -1,8 +1,685 @@
 package main
 
-// replayObligation writes the replay file of a failed obligation and, where the model gives
-// concrete inputs for a function whose parameters can be constructed, runs the real code.
+import (
+	"context"
+	"encoding/json"
+	"fmt"
+	"go/types"
+	"os"
+	"os/exec"
+	"path/filepath"
+	"sort"
+	"strconv"
+	"strings"
+
+	"golang.org/x/tools/go/ssa"
+)
+
+// Counterexample replay.  The solver's model of a failed obligation is turned into concrete arguments
+// (and a receiver) for the real function, a test that calls it is injected with `go test -overlay`
+// (nothing is written to /repo), and the violation counts as confirmed when the real code shows it:
+// a run-time panic for memory-safety obligations, the generated Go function of the postcondition
+// returning false for quantifier-free `ensures` obligations.  Supported inputs: integers, booleans,
+// strings, byte slices, string slices, pointers to structs whose fields are of those kinds (other
+// fields stay zero).  Anything else: not replayed (the VIOLATION line then ends with
+// no-failing-input-found and the replay file still carries the model and the solver output).
+
+const replayMaxLen = 1 << 16
+
+type rpVal struct {
+	expr  string   // Go expression
+	decls []string // statements to run before
+}
+
 func replayObligation(w *World, dir, prop string, o *Obligation) (string, bool) {
-	rp := writeReplay(dir, prop, o, nil, "the solver found a counterexample to this obligation")
-	return rp, false
+	if o.EvalPkg != "" {
+		// a closed fact: it was decided by evaluating the real code, which is the replay
+		rp := writeReplay(dir, prop, o, map[string]interface{}{"replayed": true, "replay": "go test evaluated the closed expression on the real code: false"}, "closed fact evaluates to false on the real code")
+		return rp, true
+	}
+	extra := map[string]interface{}{}
+	confirmed := false
+	func() {
+		defer func() {
+			if r := recover(); r != nil {
+				extra["replay_skipped"] = fmt.Sprint(r)
+			}
+		}()
+		confirmed = doReplay(w, dir, o, extra)
+	}()
+	why := "the solver found a counterexample to this obligation"
+	if confirmed {
+		why += "; replayed on the real code: confirmed"
+	}
+	rp := writeReplay(dir, prop, o, extra, why)
+	return rp, confirmed
+}
+
+func findFn(w *World, display string) (*ssa.Function, *FuncContract) {
+	for fc, fn := range w.FnOf {
+		if fnDisplayName(fn) == display {
+			return fn, fc
+		}
+	}
+	return nil, nil
+}
+
+func parseBV(v string) (uint64, bool) {
+	v = strings.TrimSpace(v)
+	switch {
+	case v == "true":
+		return 1, true
+	case v == "false":
+		return 0, true
+	case strings.HasPrefix(v, "#x"):
+		n, err := strconv.ParseUint(v[2:], 16, 64)
+		return n, err == nil
+	case strings.HasPrefix(v, "#b"):
+		n, err := strconv.ParseUint(v[2:], 2, 64)
+		return n, err == nil
+	case strings.HasPrefix(v, "(_ bv"):
+		f := strings.Fields(v[5:])
+		n, err := strconv.ParseUint(f[0], 10, 64)
+		return n, err == nil
+	}
+	return 0, false
+}
+
+type replayer struct {
+	w     *World
+	o     *Obligation
+	model map[string]string
+	ask   map[string]bool // extra terms wanted from the solver
+	pass  int
+	nvar  int
+}
+
+func (r *replayer) get(term string) (uint64, bool) {
+	if v, ok := r.model[term]; ok {
+		return parseBV(v)
+	}
+	r.ask[term] = true
+	return 0, false
+}
+
+func (r *replayer) heapDeclared(name string) (string, bool) {
+	s := sym(name + "@0")
+	return s, strings.Contains(r.o.Text, "(declare-const "+s+" ")
+}
+
+func bv(w int, v uint64) string {
+	if w == 32 {
+		return fmt.Sprintf("#x%08x", v)
+	}
+	return fmt.Sprintf("#x%016x", v)
+}
+
+func signed(v uint64, w int) int64 {
+	if w < 64 && v&(1<<uint(w-1)) != 0 {
+		return int64(v) - (1 << uint(w))
+	}
+	return int64(v)
+}
+
+// build constructs a Go expression of type t from component terms ts (consumed in comps order).
+func (r *replayer) build(t types.Type, ts []T, qual types.Qualifier) (rpVal, bool) {
+	u := under(t)
+	tn := types.TypeString(t, qual)
+	switch x := u.(type) {
+	case *types.Basic:
+		if w, sg := intInfo(x); w > 0 {
+			v, ok := r.get(ts[0])
+			if !ok {
+				return rpVal{}, false
+			}
+			if sg {
+				return rpVal{expr: fmt.Sprintf("%s(%d)", tn, signed(v, w))}, true
+			}
+			return rpVal{expr: fmt.Sprintf("%s(%d)", tn, v)}, true
+		}
+		if x.Info()&types.IsBoolean != 0 {
+			v, ok := r.get(ts[0])
+			if !ok {
+				return rpVal{}, false
+			}
+			return rpVal{expr: fmt.Sprintf("%s(%v)", tn, v != 0)}, true
+		}
+		if x.Info()&types.IsString != 0 {
+			b, ok1 := r.get(ts[0])
+			o, ok2 := r.get(ts[1])
+			l, ok3 := r.get(ts[2])
+			if !ok1 || !ok2 || !ok3 {
+				return rpVal{}, false
+			}
+			if l > replayMaxLen {
+				panic("string too long for replay")
+			}
+			bs := make([]byte, l)
+			all := true
+			for i := uint64(0); i < l; i++ {
+				c, ok := r.get(fmt.Sprintf("(select (select StrData %s) %s)", bv(32, b), bv(64, o+i)))
+				if !ok {
+					all = false
+					continue
+				}
+				bs[i] = byte(c)
+			}
+			if !all {
+				return rpVal{}, false
+			}
+			return rpVal{expr: fmt.Sprintf("%s(%q)", tn, string(bs))}, true
+		}
+	case *types.Slice:
+		b, ok1 := r.get(ts[0])
+		o, ok2 := r.get(ts[1])
+		l, ok3 := r.get(ts[2])
+		c, ok4 := r.get(ts[3])
+		if !ok1 || !ok2 || !ok3 || !ok4 {
+			return rpVal{}, false
+		}
+		if b == 0 {
+			return rpVal{expr: fmt.Sprintf("%s(nil)", tn)}, true
+		}
+		if l > replayMaxLen || c > replayMaxLen {
+			if l > replayMaxLen {
+				panic("slice too long for replay")
+			}
+			c = l
+		}
+		ecs := comps(x.Elem())
+		var elems []string
+		all := true
+		for i := uint64(0); i < l; i++ {
+			var ets []T
+			for _, ec := range ecs {
+				hs, declared := r.heapDeclared("E|" + elemKey(x.Elem()) + ec.suffix)
+				if !declared {
+					ets = append(ets, "")
+					continue
+				}
+				ets = append(ets, fmt.Sprintf("(select (select %s %s) %s)", hs, bv(32, b), bv(64, o+i)))
+			}
+			ev, ok := r.buildOrZero(x.Elem(), ets, qual)
+			if !ok {
+				all = false
+				continue
+			}
+			elems = append(elems, ev.expr)
+		}
+		if !all {
+			return rpVal{}, false
+		}
+		r.nvar++
+		name := fmt.Sprintf("rv%d", r.nvar)
+		decl := fmt.Sprintf("%s := make(%s, %d, %d)", name, tn, l, c)
+		decls := []string{decl}
+		for i, ev := range elems {
+			decls = append(decls, fmt.Sprintf("%s[%d] = %s", name, i, ev))
+		}
+		return rpVal{expr: name, decls: decls}, true
+	case *types.Pointer:
+		ref, ok := r.get(ts[0])
+		if !ok {
+			return rpVal{}, false
+		}
+		if ref == 0 {
+			return rpVal{expr: fmt.Sprintf("(%s)(nil)", tn)}, true
+		}
+		st, ok := under(x.Elem()).(*types.Struct)
+		if !ok {
+			return rpVal{expr: fmt.Sprintf("new(%s)", types.TypeString(x.Elem(), qual))}, true
+		}
+		r.nvar++
+		name := fmt.Sprintf("rv%d", r.nvar)
+		decls := []string{fmt.Sprintf("%s := new(%s)", name, types.TypeString(x.Elem(), qual))}
+		all := true
+		for i := 0; i < st.NumFields(); i++ {
+			f := st.Field(i)
+			ft := f.Type()
+			switch under(ft).(type) {
+			case *types.Basic, *types.Slice:
+			default:
+				continue // other field kinds stay zero
+			}
+			if sl, isSl := under(ft).(*types.Slice); isSl {
+				if _, ok := under(sl.Elem()).(*types.Basic); !ok {
+					continue
+				}
+			}
+			var fts []T
+			declared := true
+			for _, fc := range comps(ft) {
+				hs, d := r.heapDeclared(structFam(x.Elem(), fieldName(st, i)) + fc.suffix)
+				if !d {
+					declared = false
+					break
+				}
+				fts = append(fts, fmt.Sprintf("(select %s %s)", hs, bv(32, ref)))
+			}
+			if !declared {
+				continue
+			}
+			fv, ok := r.build(ft, fts, qual)
+			if !ok {
+				all = false
+				continue
+			}
+			decls = append(decls, fv.decls...)
+			decls = append(decls, fmt.Sprintf("%s.%s = %s", name, f.Name(), fv.expr))
+		}
+		if !all {
+			return rpVal{}, false
+		}
+		return rpVal{expr: name, decls: decls}, true
+	case *types.Interface:
+		return rpVal{expr: fmt.Sprintf("%s(nil)", tn)}, true
+	}
+	panic("parameter type not supported by the replayer: " + tn)
+}
+
+func (r *replayer) buildOrZero(t types.Type, ts []T, qual types.Qualifier) (rpVal, bool) {
+	for _, x := range ts {
+		if x == "" {
+			// heap never read by the function: any content will do
+			switch under(t).(type) {
+			case *types.Basic:
+				if b := under(t).(*types.Basic); b.Info()&types.IsString != 0 {
+					return rpVal{expr: `""`}, true
+				} else if b.Info()&types.IsBoolean != 0 {
+					return rpVal{expr: "false"}, true
+				}
+				return rpVal{expr: "0"}, true
+			}
+			panic("element type not supported by the replayer")
+		}
+	}
+	return r.build(t, ts, qual)
+}
+
+func doReplay(w *World, dir string, o *Obligation, extra map[string]interface{}) bool {
+	if !(strings.HasPrefix(o.Kind, "safe.") || (o.Kind == "ensures" && o.SpecFn != "")) {
+		panic("obligation kind not replayable (only memory-safety and postcondition obligations are)")
+	}
+	fn, _ := findFn(w, o.Func)
+	if fn == nil || fn.Parent() != nil || fn.Pkg == nil {
+		panic("function not replayable (closure or not found)")
+	}
+	if o.Model == nil {
+		o.Model = map[string]string{}
+	}
+	pkg := fn.Pkg.Pkg
+	qual := func(p *types.Package) string {
+		if p == pkg {
+			return ""
+		}
+		return p.Name()
+	}
+	r := &replayer{w: w, o: o, model: map[string]string{}, ask: map[string]bool{}}
+	for k, v := range o.Model {
+		r.model[k] = v
+	}
+	// prefer a model with short strings and slices: same query with the lengths of the parameters bounded
+	{
+		var lens []T
+		idx := 0
+		for _, p := range fn.Params {
+			cs := comps(p.Type())
+			for i, c := range cs {
+				if idx+i < len(o.ModelVars) && (c.suffix == "#l" || c.suffix == "#c" || c.suffix == "#o") {
+					lens = append(lens, o.ModelVars[idx+i])
+				}
+			}
+			idx += len(cs)
+		}
+		base := o.Text
+		if i := strings.LastIndex(base, "(check-sat)"); i >= 0 {
+			base = base[:i]
+		}
+		if len(lens) > 0 && len(o.ModelVars) > 0 {
+			for _, bound := range []int{8, 64, 1024, 32768} {
+				text := base
+				if bound <= 64 {
+					// bounded instances of the quantified assumptions make small realistic models findable
+					text = instantiateQuantifiers(base, 2*bound)
+				}
+				for _, l := range lens {
+					text += fmt.Sprintf("(assert (bvsle %s (_ bv%d 64)))\n", l, bound)
+				}
+				text += "(check-sat)\n(get-value (" + strings.Join(o.ModelVars, " ") + "))\n"
+				res := runSolver(context.Background(), solvers[0], text, filepath.Dir(o.SmtFile), sanitizeFile(o.Name)+".small", 20)
+				if res.status == "sat" {
+					if got := parseModel(res.raw); len(got) > 0 {
+						r.model = got
+						extra["replay_model"] = got
+						// later queries must stay within this bound
+						o = &Obligation{Name: o.Name, Kind: o.Kind, Func: o.Func, SpecFn: o.SpecFn, ModelVars: o.ModelVars, SmtFile: o.SmtFile, Text: strings.Replace(text, "(check-sat)\n(get-value ("+strings.Join(o.ModelVars, " ")+"))\n", "(check-sat)\n", 1)}
+						r.o = o
+						break
+					}
+				}
+			}
+		}
+	}
+	// imports needed by type names
+	imports := map[string]string{}
+	var noteImports func(t types.Type)
+	noteImports = func(t types.Type) {
+		switch x := types.Unalias(t).(type) {
+		case *types.Named:
+			if x.Obj().Pkg() != nil && x.Obj().Pkg() != pkg {
+				imports[x.Obj().Pkg().Path()] = x.Obj().Pkg().Name()
+			}
+		case *types.Pointer:
+			noteImports(x.Elem())
+		case *types.Slice:
+			noteImports(x.Elem())
+		}
+	}
+	var vals []rpVal
+	for pass := 0; pass < 6; pass++ {
+		r.ask = map[string]bool{}
+		r.nvar = 0
+		vals = nil
+		idx := 0
+		okAll := true
+		for _, p := range fn.Params {
+			n := len(comps(p.Type()))
+			if idx+n > len(o.ModelVars) {
+				panic("model variables do not line up with the parameters")
+			}
+			noteImports(p.Type())
+			v, ok := r.build(p.Type(), o.ModelVars[idx:idx+n], qual)
+			idx += n
+			if !ok {
+				okAll = false
+			}
+			vals = append(vals, v)
+		}
+		if okAll {
+			break
+		}
+		if len(r.ask) == 0 || pass == 5 {
+			panic("model incomplete")
+		}
+		// ask the solver for the missing terms, pinning everything already read from the model
+		var terms []string
+		for t := range r.ask {
+			terms = append(terms, t)
+		}
+		sort.Strings(terms)
+		text := o.Text
+		if i := strings.LastIndex(text, "(check-sat)"); i >= 0 {
+			text = text[:i]
+		}
+		var known []string
+		for k := range r.model {
+			known = append(known, k)
+		}
+		sort.Strings(known)
+		for _, k := range known {
+			text += fmt.Sprintf("(assert (= %s %s))\n", k, r.model[k])
+		}
+		text += "(check-sat)\n(get-value (" + strings.Join(append(append([]string{}, known...), terms...), " ") + "))\n"
+		res := runSolver(context.Background(), solvers[0], text, filepath.Dir(o.SmtFile), sanitizeFile(o.Name)+".replay", 30)
+		if res.status != "sat" {
+			panic("solver did not reproduce the model for the replay query: " + res.status)
+		}
+		got := parseModel(res.raw)
+		if len(got) == 0 {
+			panic("no values returned")
+		}
+		for k, v := range got {
+			r.model[k] = v
+		}
+	}
+	// the call
+	var b strings.Builder
+	b.WriteString("//go:build verif\n\npackage " + pkg.Name() + "\n\nimport (\n\t\"fmt\"\n\t\"testing\"\n")
+	var ips []string
+	for p := range imports {
+		ips = append(ips, p)
+	}
+	sort.Strings(ips)
+	for _, p := range ips {
+		fmt.Fprintf(&b, "\t%s %q\n", imports[p], p)
+	}
+	b.WriteString(")\n\nfunc TestZZVerifReplay(t *testing.T) {\n")
+	var args []string
+	for i, v := range vals {
+		for _, d := range v.decls {
+			b.WriteString("\t" + d + "\n")
+		}
+		fmt.Fprintf(&b, "\ta%d := %s\n\t_ = a%d\n", i, v.expr, i)
+		args = append(args, fmt.Sprintf("a%d", i))
+	}
+	call := ""
+	if fn.Signature.Recv() != nil {
+		call = fmt.Sprintf("a0.%s(%s)", fn.Name(), strings.Join(args[1:], ", "))
+	} else {
+		call = fmt.Sprintf("%s(%s)", fn.Name(), strings.Join(args, ", "))
+	}
+	nres := fn.Signature.Results().Len()
+	var resNames []string
+	for i := 0; i < nres; i++ {
+		resNames = append(resNames, fmt.Sprintf("r%d", i))
+	}
+	b.WriteString("\tfunc() {\n\t\tdefer func() {\n\t\t\tif r := recover(); r != nil {\n\t\t\t\tfmt.Printf(\"REPLAY-PANIC %v\\n\", r)\n\t\t\t}\n\t\t}()\n")
+	post := ""
+	if o.Kind == "ensures" {
+		info := w.SpecInfo[o.SpecFn]
+		gen := ""
+		for p, src := range w.GenFiles {
+			if filepath.Dir(p) == filepath.Dir(w.Fset.Position(fn.Pos()).Filename) {
+				gen = string(src)
+			}
+		}
+		k := strings.Index(gen, "func "+o.SpecFn+"(")
+		body := ""
+		if k >= 0 {
+			body = gen[k:]
+			if e := strings.Index(body, "\n}\n"); e >= 0 {
+				body = body[:e]
+			}
+		}
+		if info == nil || body == "" || strings.Contains(body, "spec_forall") || strings.Contains(body, "spec_exists") || strings.Contains(body, "G_") || strings.Contains(body, "spec_fresh") || strings.Contains(body, "spec_same") || strings.Contains(body, "spec_allocated") {
+			panic("postcondition uses quantifiers, ghosts or allocation predicates: not executable")
+		}
+		var sargs []string
+		for _, a := range info.Args {
+			switch a.Role {
+			case "param":
+				sargs = append(sargs, fmt.Sprintf("a%d", a.Idx))
+			case "old":
+				// value at entry: copies taken before the call
+				sargs = append(sargs, fmt.Sprintf("o%d", a.Idx))
+			case "result":
+				sargs = append(sargs, fmt.Sprintf("r%d", a.Idx))
+			default:
+				panic("postcondition mentions a local variable")
+			}
+		}
+		for i, p := range fn.Params {
+			switch x := under(p.Type()).(type) {
+			case *types.Slice:
+				fmt.Fprintf(&b, "\t\to%d := append(a%d[:0:0], a%d...)\n\t\t_ = o%d\n", i, i, i, i)
+			case *types.Pointer:
+				if _, ok := under(x.Elem()).(*types.Struct); ok {
+					fmt.Fprintf(&b, "\t\tvar o%d %s\n\t\tif a%d != nil {\n\t\t\tcp := *a%d\n\t\t\to%d = &cp\n\t\t}\n\t\t_ = o%d\n", i, types.TypeString(p.Type(), qual), i, i, i, i)
+				} else {
+					fmt.Fprintf(&b, "\t\to%d := a%d\n\t\t_ = o%d\n", i, i, i)
+				}
+			default:
+				fmt.Fprintf(&b, "\t\to%d := a%d\n\t\t_ = o%d\n", i, i, i)
+			}
+		}
+		post = fmt.Sprintf("\t\tif %s(%s) {\n\t\t\tfmt.Println(\"REPLAY-POST-TRUE\")\n\t\t} else {\n\t\t\tfmt.Println(\"REPLAY-POST-FALSE\")\n\t\t}\n", o.SpecFn, strings.Join(sargs, ", "))
+	}
+	if nres > 0 {
+		fmt.Fprintf(&b, "\t\t%s := %s\n", strings.Join(resNames, ", "), call)
+		for _, rn := range resNames {
+			fmt.Fprintf(&b, "\t\t_ = %s\n", rn)
+		}
+	} else {
+		fmt.Fprintf(&b, "\t\t%s\n", call)
+	}
+	b.WriteString("\t\tfmt.Println(\"REPLAY-RETURNED\")\n")
+	b.WriteString(post)
+	b.WriteString("\t}()\n}\n")
+	src := b.String()
+	extra["replay_test"] = src
+
+	// run it
+	pkgDir := filepath.Dir(w.Fset.Position(fn.Pos()).Filename)
+	ovDir := filepath.Join(dir, "overlay_"+sanitizeFile(o.Name))
+	os.RemoveAll(ovDir)
+	os.MkdirAll(ovDir, 0o755)
+	defer os.RemoveAll(ovDir)
+	replace := map[string]string{}
+	n := 0
+	add := func(path string, content []byte) {
+		n++
+		f := filepath.Join(ovDir, fmt.Sprintf("f%d_%s", n, filepath.Base(path)))
+		os.WriteFile(f, content, 0o644)
+		replace[path] = f
+	}
+	for p, c := range w.GenFiles {
+		add(p, c)
+	}
+	add(filepath.Join(pkgDir, "zz_verif_replay_test.go"), []byte(src))
+	ovJSON, _ := json.Marshal(map[string]interface{}{"Replace": replace})
+	ovFile := filepath.Join(ovDir, "overlay.json")
+	os.WriteFile(ovFile, ovJSON, 0o644)
+	cmd := exec.Command("go", "test", "-tags", "verif", "-overlay", ovFile, "-vet=off", "-count=1", "-timeout", "60s", "-run", "^TestZZVerifReplay$", "-v", fn.Pkg.Pkg.Path())
+	cmd.Dir = w.RepoDir
+	cmd.Env = append(os.Environ(), "GOFLAGS=-mod=mod", "GOPROXY=off", "GOSUMDB=off", "GOTOOLCHAIN=local")
+	out, _ := cmd.CombinedOutput()
+	so := string(out)
+	var keep []string
+	for _, l := range strings.Split(so, "\n") {
+		if strings.HasPrefix(l, "REPLAY-") || strings.Contains(l, "FAIL") || strings.Contains(l, "cannot") || strings.Contains(l, "undefined") {
+			keep = append(keep, l)
+		}
+	}
+	extra["replay_output"] = strings.Join(keep, "\n")
+	switch {
+	case strings.HasPrefix(o.Kind, "safe.") && strings.Contains(so, "REPLAY-PANIC"):
+		extra["replayed"] = true
+		return true
+	case o.Kind == "ensures" && strings.Contains(so, "REPLAY-POST-FALSE"):
+		extra["replayed"] = true
+		return true
+	}
+	extra["replayed"] = false
+	return false
+}
+
+// instantiateQuantifiers replaces every universally quantified assumption over 64-bit index variables by
+// its instances for the values 0..n-1 (used only to find small candidate counterexamples that are then
+// validated by running the real code; weakening assumptions cannot hide a real counterexample).
+func instantiateQuantifiers(text string, n int) string {
+	lines := strings.Split(text, "\n")
+	for li, l := range lines {
+		if !strings.HasPrefix(l, "(assert ") || !strings.Contains(l, "(forall ((") {
+			continue
+		}
+		out, ok := instLine(l, n, 0)
+		if !ok || len(out) > 4<<20 {
+			lines[li] = "" // drop the assumption
+			continue
+		}
+		lines[li] = out
+	}
+	return strings.Join(lines, "\n")
+}
+
+func instLine(l string, n int, depth int) (string, bool) {
+	for depth < 6 {
+		i := strings.Index(l, "(forall ((")
+		if i < 0 {
+			return l, true
+		}
+		end := matchParen(l, i)
+		if end < 0 {
+			return "", false
+		}
+		q := l[i : end+1]
+		// binders
+		bstart := len("(forall ")
+		bend := matchParen(q, bstart)
+		if bend < 0 {
+			return "", false
+		}
+		binders := q[bstart+1 : bend]
+		var names []string
+		rest := binders
+		for {
+			rest = strings.TrimSpace(rest)
+			if rest == "" {
+				break
+			}
+			e := matchParen(rest, 0)
+			if e < 0 {
+				return "", false
+			}
+			b := rest[1:e]
+			k := strings.IndexAny(b, " \t")
+			if k < 0 || strings.TrimSpace(b[k:]) != "(_ BitVec 64)" {
+				return "", false
+			}
+			names = append(names, b[:k])
+			rest = rest[e+1:]
+		}
+		body := strings.TrimSpace(q[bend+1 : len(q)-1])
+		if strings.HasPrefix(body, "(! ") {
+			// strip the annotation
+			inner := body[3:]
+			e := 0
+			if strings.HasPrefix(inner, "(") {
+				e = matchParen(inner, 0) + 1
+			} else {
+				e = strings.IndexAny(inner, " ")
+			}
+			if e <= 0 {
+				return "", false
+			}
+			body = inner[:e]
+		}
+		insts := []string{body}
+		for _, nm := range names {
+			var next []string
+			for _, b := range insts {
+				for v := 0; v < n; v++ {
+					next = append(next, replaceToken(b, nm, fmt.Sprintf("(_ bv%d 64)", v)))
+				}
+				if len(next) > 4096 {
+					return "", false
+				}
+			}
+			insts = next
+		}
+		l = l[:i] + "(and " + strings.Join(insts, " ") + ")" + l[end+1:]
+		depth++
+	}
+	return "", false
+}
+
+func replaceToken(s, name, val string) string {
+	var b strings.Builder
+	for {
+		i := strings.Index(s, name)
+		if i < 0 {
+			b.WriteString(s)
+			break
+		}
+		j := i + len(name)
+		if j < len(s) && (isIdentChar(s[j]) || s[j] == '!' || s[j] == '#') {
+			b.WriteString(s[:j])
+			s = s[j:]
+			continue
+		}
+		b.WriteString(s[:i])
+		b.WriteString(val)
+		s = s[j:]
+	}
+	return b.String()
 }
